@@ -654,6 +654,10 @@ struct SessionCx<'a> {
     evs_idx: &'a [usize],
     ci: usize,
     c: &'a CObs,
+    /// the frames the law is evaluated on: while the link is still up at the fixpoint after the generated ops
+    /// only what the consumer had read BY THEN counts (the harness's own stop afterwards makes the runtime
+    /// flush everything, which would hide an event that was withheld while the link was quiet)
+    frames: &'a [(u64, Note)],
     linked_at: usize,
     /// position in `evs` that the consumer's events must reach (None: the link was cut)
     need_to: Option<usize>,
@@ -667,9 +671,8 @@ impl<'a> SessionCx<'a> {
     /// linked, then every later event in order (`owed`: events emitted after it read linked must be there).
     fn plain_session(&self, owed: bool, cell: &str) -> Result<(), (String, String)> {
         let kn = self.obs.kind.name();
-        let linked_seq = self.c.frames[self.linked_at].0;
+        let linked_seq = self.frames[self.linked_at].0;
         let stream: Vec<Ev> = self
-            .c
             .frames
             .iter()
             .filter_map(|(_, f)| match f {
@@ -725,17 +728,17 @@ impl<'a> SessionCx<'a> {
         let kind = obs.kind;
         let kn = kind.name();
         let c = self.c;
-        let synced_seq = c.frames[sy].0;
-        let linked_seq = c.frames[self.linked_at].0;
+        let synced_seq = self.frames[sy].0;
+        let linked_seq = self.frames[self.linked_at].0;
         let mut replica = State::empty(kind);
         let mut pre: Vec<Ev> = vec![];
-        for (_, f) in &c.frames[self.linked_at..sy] {
+        for (_, f) in &self.frames[self.linked_at..sy] {
             if let Note::Event(e) = f {
                 replica.apply(e);
                 pre.push(e.clone());
             }
         }
-        let post: Vec<Ev> = c.frames[sy..]
+        let post: Vec<Ev> = self.frames[sy..]
             .iter()
             .filter_map(|(_, f)| match f {
                 Note::Event(e) => Some(e.clone()),
@@ -1022,12 +1025,23 @@ fn check(case: &Case) -> Verdict {
         } else {
             None
         };
+        // link still up: judge what had arrived by the fixpoint, before the harness's own stop
+        let frames: &[(u64, Note)] = if alive && live_link {
+            &c.frames[..c.snap_frames.min(c.frames.len())]
+        } else {
+            &c.frames[..]
+        };
+        if l >= frames.len() {
+            continue;
+        }
+        let synced_at = synced_at.filter(|i| *i < frames.len());
         let cx = SessionCx {
             obs: &obs,
             evs: &evs,
             evs_idx: &evs_idx,
             ci,
             c,
+            frames,
             linked_at: l,
             need_to,
         };
@@ -1116,7 +1130,7 @@ fn check(case: &Case) -> Verdict {
             // a correct synced session)? That is one specific defect; everything else is generic.
             let as_sync = match synced_at {
                 Some(sy) => cx.synced_session(sy).is_ok(),
-                None => !c.frames.iter().any(|(_, f)| matches!(f, Note::Event(_))),
+                None => !frames.iter().any(|(_, f)| matches!(f, Note::Event(_))),
             };
             if sig.starts_with("events-missing") && as_sync {
                 v.fail(
@@ -1439,6 +1453,28 @@ fn check(case: &Case) -> Verdict {
     v.class_if(clean_unlinked, "clean-unlinked");
     v.class_if(obs.remote_closed.is_some(), "remote-closed");
     v.class_if(obs.reader_closed.is_some(), "outgoing-half-failed");
+    // the shape of seeded change C07-8: a sync reply (event immediately followed by synced, both in the
+    // runtime's input before it ran again) arrives while another consumer that listens had already read
+    // linked, nothing is emitted afterwards, and the link is still up at the fixpoint
+    {
+        let mut shape = false;
+        for j in 1..obs.snap_emitted.min(obs.emitted.len()) {
+            let (EmKind::Synced { .. }, EmKind::Event(_)) = (&obs.emitted[j].kind, &obs.emitted[j - 1].kind) else { continue };
+            let (Some(pe), Some(ps)) = (obs.emitted[j - 1].pumped, obs.emitted[j].pumped) else { continue };
+            let together = !obs.idle_at.iter().any(|i| *i > pe && *i < ps);
+            let quiet = j + 1 == obs.snap_emitted;
+            let listener_before = obs.consumers.iter().any(|c| {
+                c.dropped.is_none()
+                    && c.reader_dropped.is_none()
+                    && c.frames.iter().any(|(s, f)| *f == Note::Linked && *s < obs.emitted[j - 1].seq)
+            });
+            let late_sync = obs.consumers.iter().filter(|c| c.sync).count() >= 2;
+            if together && quiet && listener_before && late_sync && live_link {
+                shape = true;
+            }
+        }
+        v.class_if(shape, "sync-reply-delivered-together-to-registered-listener-then-quiet");
+    }
     v.class_if(obs.consumers.iter().any(|c| c.reader_dropped.is_some()), "consumer-stopped-listening");
     v.class_if(obs.snap_stopped, "stopped-by-op");
     v.class_if(live_link, "link-up-at-end");
